@@ -170,6 +170,7 @@ def reset_path_state():
     BOUNDS.clear()
     KNOWN_LEN.clear()
     LEN_TERM.clear()
+    SLICE_INFO.clear()
     del LINKS[:]
     del XOR8_FACTS[:]
     del _KEEP[:]
@@ -550,6 +551,7 @@ KNOWN_LEN = {}      # z3 ast id -> python int (exact length of a bytes term)
 _KEEP = []          # keep terms alive so ast ids stay unique
 
 
+SLICE_INFO = {}     # z3 ast id -> (base term, lo Int term, count Int term) for terms created as python slices base[lo:lo+count]
 LEN_TERM = {}       # z3 ast id -> z3 Int term: symbolic length of a bytes term (companion length)
 LINKS = []          # (bytes term, Int term): Length(bytes term) = Int term; drained into the path context, which drops
                     # the link of a term whose content is constrained nowhere (no long sequence has to be built then)
@@ -724,6 +726,8 @@ def seq_slice_term(t, lo, hi, sort=BytesSort):
     r = z3.SubSeq(t, lo_c, n)
     if sort == BytesSort:
         set_len_term(r, n)
+    SLICE_INFO[r.get_id()] = (t, z3.simplify(lo_c), n)
+    _KEEP.append(r)
     return r
 
 
